@@ -46,7 +46,7 @@ BOUNDS = {
     "thorough": dict(term_depth="3 complete + 4 pruned by structural/semantic dedup", atoms=8, addresses=40,
                      address_len="0..3", alphabet=3, build_modes=3, extend_prefixes=8, extend_over_depth=3),
 }
-JOBS = {"quick": 8, "thorough": 16}
+JOBS = {"quick": 6, "thorough": 16}
 
 ADDR_LEN = 3
 
@@ -326,6 +326,7 @@ def check_term(ctx, U: Universe, t: Term, full_api="all"):
 
 def _case_low(seed):
     def run(ctx):
+        _answers.clear()  # counts must not depend on how cases are distributed over workers
         U, L = levels(seed, 2)
         for t in L:
             check_term(ctx, U, t)
@@ -343,6 +344,7 @@ def _case_d3(seed, opname, i, tier):
     api = "all" if tier == "thorough" else "builders"
 
     def run(ctx):
+        _answers.clear()  # counts must not depend on how cases are distributed over workers
         U, L2 = levels(seed, 2)
         a = L2[i]
         f = BINOPS[opname]
@@ -362,6 +364,7 @@ def _case_d3(seed, opname, i, tier):
 
 def _case_ext(seed, upto, chunk, nchunks):
     def run(ctx):
+        _answers.clear()  # counts must not depend on how cases are distributed over workers
         U, L = levels(seed, upto)
         atoms = L[:8]
         mine = L[chunk::nchunks]
@@ -407,6 +410,7 @@ def _d4_operands(seed):
 
 def _case_d4_struct(seed, chunk, nchunks):
     def run(ctx):
+        _answers.clear()  # counts must not depend on how cases are distributed over workers
         U, low, d3, _ = _d4_operands(seed)
         for t in d3[chunk::nchunks]:
             check_term(ctx, U, t_not(U, t), "none")
@@ -423,6 +427,7 @@ def _case_d4_struct(seed, chunk, nchunks):
 
 def _case_d4_reps(seed, chunk, nchunks):
     def run(ctx):
+        _answers.clear()  # counts must not depend on how cases are distributed over workers
         U, _, _, reps = _d4_operands(seed)
         for a in reps[chunk::nchunks]:
             for b in reps:
